@@ -306,14 +306,14 @@ OUTSIDE[P] = ["arbitrary / mutated header text: any symbolic header digit makes 
 LEVEL_TEXT[P] = ("Bounded model checking of parse_pnm with concrete header text and fully symbolic binary payload/truncation: no panic, Ok => dimensions and pixel count match the header and pixels are the payload verbatim, "
                  "short payload => Err; zero-sized and overflowing dimensions never panic; write_ppm -> read_pnm round trip on strided views.")
 for n, dom in [("c13_p6_2x1", "'P6 2 1 255\\n'"), ("c13_p6_1x2_tabs_cr", "'P6\\t1\\r\\n2\\n255 '"), ("c13_p6_comments", "P6 with comments before and between fields"), ("c13_p5_3x3", "'P5 3 3 255\\n'"), ("c13_p5_2x2_comment", "P5 with comments")]:
-    H(P, "c13", n, ("bare",), dom + " ++ arbitrary payload bytes (one more than needed, up to 9) truncated at any point", "Ok <=> payload complete; dims/pixel count == header; pixels == payload bytes; else Err(UnexpectedEnd)", unwind=40, est=120, cap=900)
+    H(P, "c13", n, ("bare",), dom + " ++ arbitrary payload bytes (one more than needed, up to 9) truncated at any point", "Ok <=> payload complete; dims/pixel count == header; pixels == payload bytes; else Err", unwind=40, est=120, cap=900)
 for n in range(8):
-    H(P, "c13", f"c13_p6_2x1_cut{n}", ("bare",), f"'P6 2 1 255\\n' ++ the first {n} of 7 arbitrary payload bytes (concrete length: {'complete' if n >= 6 else 'truncated' + (' mid-pixel' if n % 3 else '')})", "Ok <=> complete, pixels == payload; else Err(UnexpectedEnd); no panic", unwind=40, est=120, cap=900)
+    H(P, "c13", f"c13_p6_2x1_cut{n}", ("bare",), f"'P6 2 1 255\\n' ++ the first {n} of 7 arbitrary payload bytes (concrete length: {'complete' if n >= 6 else 'truncated' + (' mid-pixel' if n % 3 else '')})", "Ok <=> complete, pixels == payload; else Err; no panic", unwind=40, est=120, cap=900)
 for n, dom in [("c13_p6_0x3", "'P6 0 3 255\\n'"), ("c13_p6_2x0", "'P6 2 0 255\\n'"), ("c13_p5_0x0", "'P5 0 0 255\\n'")]:
     H(P, "c13", n, ("bare",), dom + " ++ <= 4 arbitrary bytes", "Ok with the header's dims and no pixels; no panic", unwind=24, est=60)
 for n, dom in [("c13_p6_overflowing_dims", "'P6 65536 65536 255'"), ("c13_p6_huge_width", "'P6 4294967295 2 255'"), ("c13_p5_large", "'P5 40000 40000 255'"), ("c13_p6_dim_too_big_for_u32", "'P6 4294967296 1 255'")]:
     H(P, "c13", n, ("bare",), dom + " ++ <= 4 arbitrary bytes", "Err, never a panic", unwind=40, est=60)
-H(P, "c13", "c13_bad_magic", ("bare",), "6 concrete files with unsupported or truncated magic numbers (test-like)", "Err(Unsupported(magic)) / Err(UnexpectedEnd), no panic", unwind=12, est=120, cap=900)
+H(P, "c13", "c13_bad_magic", ("bare",), "6 concrete files with unsupported or truncated magic numbers (test-like)", "Err, no panic", unwind=12, est=120, cap=900)
 H(P, "c13", "c13_garbage_after_magic", ("bare",), "6 concrete malformed files and 2 concrete text-format files (test-like: concrete execution by the symbolic engine)", "malformed numbers => Err; P2/P3 text samples decode", unwind=24, est=1500, cap=2700, tiers=("thorough",))
 H(P, "c13", "c13_write_ppm_view", ("std",), "2x2 sub-view at any offset of a 3x3 image with arbitrary pixel bytes", "write_ppm emits 'P6 2 2 255\\n' + the view's pixels row-major (the decode harnesses cover reading exactly that spelling back)", unwind=24, est=600, cap=1500)
 H(P, "c13", "c13_roundtrip_2x2_view", ("std",), "2x2 sub-view at any offset of a 3x3 image with arbitrary pixel bytes", "read_pnm(write_ppm(view)) == view", unwind=40, est=2000, cap=2700, tiers=("thorough",))
